@@ -71,6 +71,12 @@ Section Spec.
   Definition dup_tail_related : list T -> list T -> Prop :=
     clos_refl_sym_trans _ dup_step.
 
+  (** somewhere in [l]: two equal aligned sibling blocks of 2^j elements
+      (an aligned duplicated tail is the special case at the end of the list) *)
+  Definition haspair (l : list T) : Prop :=
+    exists a j, Nat.divide (2 ^ S j) a /\ a + 2 ^ S j <= length l /\
+      firstn (2 ^ j) (skipn a l) = firstn (2 ^ j) (skipn (a + 2 ^ j) l).
+
   (** multi-layer: the child chains partition the transaction list in order and
       every child hash is the tree root of the full hashes of its slice *)
   Fixpoint chains_cover (txs : list (mtx T)) (next : nat) (cs : list (childchain T)) : Prop :=
